@@ -1,0 +1,15 @@
+//go:build verif
+
+// Accessors for the verification harness in /verif (build tag "verif").
+// This file only adds exported wrappers around unexported items; it changes
+// no behaviour and is absent from normal builds.
+
+package conduiterr
+
+import "google.golang.org/grpc/codes"
+
+// VerifCode builds a Code value without registering it (an unregistered reason, or a
+// registered reason carrying another category, as FromStatus / WithUnknownReason produce).
+func VerifCode(reason string, grpcCode codes.Code) Code {
+	return Code{reason: reason, grpcCode: grpcCode}
+}
